@@ -30,6 +30,7 @@ MIN_EVALS = {"quick": 500, "thorough": 12000}
 FLOORS = {"cmp_remote": 500, "cmp_marker": 500, "incremental": 300, "full_fresh": 80, "skip_k": 40, "backwards_overwrite": 30,
           "diverged_refused": 20, "delta_renamed": 100, "delta_removed": 100, "delta_kind_changed": 30, "delta_swap": 15,
           "ignored_paths": 40, "symlink_compared": 60, "exec_compared": 60}
+SHARDS = {"quick": 8}  # every worker pays the same start-up (imports are compiled per process); fewer, longer shards
 EXHAUSTIVE = {"quick": False, "thorough": False}
 ASSUMPTIONS = [
     "remote = dromedary LocalTransport on tmpfs; its symlink(source, link) can only express targets inside the link's own directory, so "
@@ -489,47 +490,90 @@ def _exc_key(e, delta, snap_new, taint):
     unspecified = any(x and (_tainted(taint, x) or any(t.startswith(x + "/") for t in taint)) for x in involved)
     if subject is None:
         return "raised:%s@%s" % (exc, opname), unspecified
-    # ---- known mechanism families first (closed key space); anything else keeps its detailed key
     if opname == "upload_symlink" and "/" in subject and exc in ("InvalidURL", "NoSuchFile", "PathNotChild"):
         # the link-relative target is handed to Transport.symlink() as a transport-relative source
         # (upload_symlink_robustly normalises it, upload_symlink does not)
         return "symlink-in-subdirectory:target-not-normalised", False
     if opname == "upload_symlink" and exc == "FileExists":
         return "upload_symlink:remote-path-not-cleared-first", unspecified
-    if subject in SPECIAL:
-        return ("special-file-skipped-by-full-upload" if exc == "NoSuchFile" else "raised:%s@%s:special-file" % (exc, opname)), False
     if delta is None:
         return "raised:%s@%s:entry" % (exc, opname), unspecified
-    base = (delta.of_old(subject) if side == "old" else delta.of_new(subject)) or "unchanged"
-    flags = delta.flags_old(subject) if side == "old" else delta.flags_new(subject)
-    if base.startswith("renamed+kind_changed"):
-        return "renamed+kind_changed-treated-as-plain-rename", unspecified
-    if base.startswith("renamed+target"):
-        return "renamed+retargeted-symlink-uploaded-as-file", unspecified
-    if "into-added-dir" in flags and opname in ("finish_renames", "rename_remote", "upload_file"):
-        return ("rename-into-directory-added-in-same-upload" if exc == "NoSuchFile" else "raised:%s@%s:rename-into-added-directory" % (exc, opname)), unspecified
-    if "under-renamed-dir" in flags:
-        return ("path-under-directory-renamed-in-same-upload" if exc == "NoSuchFile" else "raised:%s@%s:path-under-renamed-directory" % (exc, opname)), unspecified
-    if flags & {"path-reused", "old-path-reused"}:
-        return "raised:%s@%s:path-reused-within-one-upload" % (exc, opname), unspecified
+    fid = delta.old_at.get(subject) if side == "old" else delta.new_at.get(subject)
+    fam = _family(delta, fid, subject, None)
+    if fam:
+        return fam, (unspecified and fam != "special-file-skipped-by-full-upload")
+    base = delta.cls.get(fid, "unchanged")
+    shapes = _delta_shapes(delta)
+    if shapes:
+        return "other-failure-in-delta-with:%s" % shapes[0], unspecified
     return "raised:%s@%s:%s" % (exc, opname, base), unspecified
+
+
+FAMILY_ORDER = ["special-file-skipped-by-full-upload", "renamed+kind_changed-treated-as-plain-rename",
+                "renamed+retargeted-symlink-uploaded-as-file", "rename-into-directory-added-in-same-upload",
+                "path-under-directory-renamed-in-same-upload", "path-reused-by-directory-or-symlink-within-one-upload",
+                "renamed+exec:exec-bit-not-updated"]
+
+
+def _family(delta, fid, path, sym):
+    """Known mechanism (closed key space) that explains a failure at the entry fid / path, or None."""
+    if path in SPECIAL:
+        return "special-file-skipped-by-full-upload"
+    if fid is None:
+        return None
+    cls = delta.cls.get(fid, "unchanged")
+    flags = delta.flags.get(fid, set())
+    if cls.startswith("renamed+kind_changed"):
+        return "renamed+kind_changed-treated-as-plain-rename"
+    if cls.startswith("renamed+target"):
+        return "renamed+retargeted-symlink-uploaded-as-file"
+    if sym == "exec-bit" and cls.startswith("renamed") and "+exec" in cls:
+        return "renamed+exec:exec-bit-not-updated"
+    if "into-added-dir" in flags:
+        return "rename-into-directory-added-in-same-upload"
+    if "under-renamed-dir" in flags:
+        return "path-under-directory-renamed-in-same-upload"
+    if flags & {"path-reused", "old-path-reused"} and delta.reuse_kinds(fid) - {"file"}:
+        # plain file<->file swaps are what the two-stage rename exists for and must work: they keep their detailed key
+        return "path-reused-by-directory-or-symlink-within-one-upload"
+    return None
+
+
+def _delta_shapes(delta):
+    """Known-bad shapes present anywhere in the delta, most specific first (used only when the failing path itself explains nothing:
+    an aborted or mis-ordered upload damages unrelated paths too)."""
+    found = set()
+    opath = {v[3]: p for p, v in delta.old.items()}
+    npath = {v[3]: p for p, v in delta.new.items()}
+    for fid, cls in delta.cls.items():
+        if cls.startswith("carried"):
+            continue
+        for pth in (opath.get(fid), npath.get(fid)):
+            if pth in SPECIAL:
+                found.add("special-file-skipped-by-full-upload")
+        n = npath.get(fid)
+        if n is not None and delta.new[n][0] == "symlink" and "/" in n and (cls.startswith("added") or "target" in cls or "kind_changed" in cls):
+            found.add("symlink-in-subdirectory:target-not-normalised")
+        if n is not None and delta.new[n][0] == "symlink" and ("modified+target" in cls or "path-reused" in delta.flags.get(fid, ())):
+            found.add("upload_symlink:remote-path-not-cleared-first")
+        f = _family(delta, fid, None, "exec-bit")
+        if f:
+            found.add(f)
+    order = ["symlink-in-subdirectory:target-not-normalised", "upload_symlink:remote-path-not-cleared-first"] + FAMILY_ORDER
+    return [x for x in order if x in found]
 
 
 def _mismatch_key(delta, p, cls, sym):
     """Family key for a remote/tree difference at path p (closed key space for the known mechanisms), else the detailed key."""
     if delta is None:
         return "%s:%s" % (cls, sym)
-    flags = delta.flags_new(p) if p in delta.new_at else delta.flags_old(p)
-    if sym == "exec-bit" and cls.startswith("renamed") and "+exec" in cls:
-        return "renamed+exec:exec-bit-not-updated"
-    if cls.startswith("renamed+kind_changed"):
-        return "renamed+kind_changed-treated-as-plain-rename"
-    if cls.startswith("renamed+target"):
-        return "renamed+retargeted-symlink-uploaded-as-file"
-    if "under-renamed-dir" in flags:
-        return "path-under-directory-renamed-in-same-upload:%s" % sym
-    if flags & {"path-reused", "old-path-reused"}:
-        return "path-reused-within-one-upload:%s" % sym
+    fid = delta.new_at.get(p, delta.old_at.get(p))
+    fam = _family(delta, fid, p, sym)
+    if fam:
+        return fam
+    shapes = _delta_shapes(delta)
+    if shapes:
+        return "other-failure-in-delta-with:%s" % shapes[0]
     return "%s:%s" % (cls, sym)
 
 
